@@ -37,12 +37,12 @@ pub fn all_flag_cfgs(offsets: &[u16], notify_ops: bool, legacy_too: bool) -> Vec
     let mut v = vec![];
     for &off in offsets {
         for bits in 0..8u8 {
-            let c = QCfg { indirect: bits & 1 != 0, event_idx: bits & 2 != 0, ap: bits & 4 != 0, legacy: false, start_off: off, notify_ops, abstract_idx: false, trace: false, reduced: false, preroll: 0, wait_pop: false, oom: false };
+            let c = QCfg { indirect: bits & 1 != 0, event_idx: bits & 2 != 0, ap: bits & 4 != 0, legacy: false, start_off: off, notify_ops, abstract_idx: false, trace: false, reduced: false, preroll: 0, wait_pop: false, oom: false, bad_args: false };
             v.push(c);
         }
         if legacy_too {
-            v.push(QCfg { indirect: false, event_idx: false, ap: false, legacy: true, start_off: off, notify_ops, abstract_idx: false, trace: false, reduced: false, preroll: 0, wait_pop: false, oom: false });
-            v.push(QCfg { indirect: true, event_idx: true, ap: false, legacy: true, start_off: off, notify_ops, abstract_idx: false, trace: false, reduced: false, preroll: 0, wait_pop: false, oom: false });
+            v.push(QCfg { indirect: false, event_idx: false, ap: false, legacy: true, start_off: off, notify_ops, abstract_idx: false, trace: false, reduced: false, preroll: 0, wait_pop: false, oom: false, bad_args: false });
+            v.push(QCfg { indirect: true, event_idx: true, ap: false, legacy: true, start_off: off, notify_ops, abstract_idx: false, trace: false, reduced: false, preroll: 0, wait_pop: false, oom: false, bad_args: false });
         }
     }
     v
@@ -134,6 +134,9 @@ pub fn tier_plans(tier: Tier, notify_ops: bool) -> Vec<Plan> {
             // Indirect queues with submissions during which the table allocation fails.
             Plan { n: 4, depth: 4, cfgs: all_flag_cfgs(&[0], false, false).into_iter().filter(|c| !c.ap && c.indirect).map(|mut c| { c.oom = true; c }).collect() },
             Plan { n: 4, depth: 5, cfgs: all_flag_cfgs(&[65534], false, false).into_iter().filter(|c| !c.ap && c.indirect).map(|mut c| { c.oom = true; c.reduced = true; c }).collect() },
+            // Submissions that break the "no empty buffer" precondition: a refusal (instead of
+            // the panic) must be as free of side effects as any other.
+            Plan { n: 4, depth: 5, cfgs: all_flag_cfgs(&[0], false, false).into_iter().filter(|c| !c.ap && !c.event_idx).map(|mut c| { c.bad_args = true; c.reduced = true; c }).collect() },
         ],
         Tier::Thorough => vec![
             Plan { n: 1, depth: 16, cfgs: all_flag_cfgs(&[0, 65535, 65534, 65532, 65530, 65526], notify_ops, true) },
@@ -152,6 +155,7 @@ pub fn tier_plans(tier: Tier, notify_ops: bool) -> Vec<Plan> {
             Plan { n: 8, depth: 5, cfgs: all_flag_cfgs(&[0], false, false).into_iter().filter(|c| !c.ap).map(|mut c| { c.reduced = true; c.wait_pop = true; c }).collect() },
             Plan { n: 4, depth: 6, cfgs: all_flag_cfgs(&[0, 65533], false, true).into_iter().filter(|c| !c.ap && c.indirect).map(|mut c| { c.oom = true; c }).collect() },
             Plan { n: 8, depth: 5, cfgs: all_flag_cfgs(&[0], false, false).into_iter().filter(|c| !c.ap && c.indirect).map(|mut c| { c.oom = true; c.reduced = true; c }).collect() },
+            Plan { n: 4, depth: 7, cfgs: all_flag_cfgs(&[0, 65533], false, false).into_iter().filter(|c| !c.ap).map(|mut c| { c.bad_args = true; c.reduced = true; c }).collect() },
         ],
     }
 }
@@ -179,7 +183,7 @@ pub fn run_linear(check: &mut Check, tier: Tier) {
             }
         }
     }
-    let base = QCfg { indirect: false, event_idx: false, ap: false, legacy: false, start_off: 0, notify_ops: false, abstract_idx: false, trace: false, reduced: false, preroll: 0, wait_pop: false, oom: false };
+    let base = QCfg { indirect: false, event_idx: false, ap: false, legacy: false, start_off: 0, notify_ops: false, abstract_idx: false, trace: false, reduced: false, preroll: 0, wait_pop: false, oom: false, bad_args: false };
     let ind = QCfg { indirect: true, event_idx: true, ..base };
     let long = if tier == Tier::Quick { 24_000 } else { 120_000 };
     let big = if tier == Tier::Quick { 150 } else { 1500 };
